@@ -323,7 +323,7 @@ def run(chk, tier):
 
     # (A) the design: TLC on XFloat.tla
     if quick:
-        models = [("XFloat", "XFloatSmall", 4, True), ("XFloat", "XFloatSFQuick", 4, False),
+        models = [("XFloat", "XFloatSmallQuick", 4, True), ("XFloat", "XFloatSFQuick", 4, False),
                   ("XFloat", "XFloatDFQuick", 4, False), ("BitField", "BitFieldSmall", 2, False)]
     else:
         models = [("XFloat", "XFloatDF", 6, False), ("XFloat", "XFloatSmall", 2, True), ("XFloat", "XFloatSF", 3, False),
